@@ -40,6 +40,14 @@ func gen(t *rapid.T) sim.Case {
 			}
 		}
 		c.HoldOpen = roots
+	} else if rapid.IntRange(0, 3).Draw(t, "repeatVariant") == 0 {
+		// a repeating step (it keeps its slot while it pauses between two
+		// repetitions, like a step waiting out a retry interval); the run is
+		// ended by a stop request after a generated number of events
+		s := &c.Steps[rapid.IntRange(0, len(c.Steps)-1).Draw(t, "repStep")]
+		s.Repeat, s.RepeatIvUS = true, rapid.SampledFrom([]int{200, 800, 3000}).Draw(t, "repIv")
+		s.FailFirst, s.RetryLimit, s.Precond, s.SetupFail = 0, -1, 0, false
+		c.Stop = &sim.StopSpec{Trigger: "event", N: rapid.IntRange(4, 8*len(c.Steps)+8).Draw(t, "stopN")}
 	}
 	return c
 }
@@ -85,6 +93,14 @@ func check(t rep.Fataler, c sim.Case) {
 	default:
 		lab = append(lab, "limit-slack")
 	}
+	for _, s := range c.Steps {
+		if s.Repeat {
+			lab = append(lab, "repeating-step")
+			if k > 0 && roots > k {
+				key = rep.Hash(c.Key() + "|" + r.Order)
+			}
+		}
+	}
 	if k > 0 && sim.MaxOverlap(r.Trace) == k {
 		lab = append(lab, "limit-reached")
 	}
@@ -106,6 +122,14 @@ func TestReplay(t *testing.T) {
 	cf, err := rep.LoadCase(p)
 	if err != nil {
 		t.Fatal(err)
+	}
+	if cf.Sub == "agent" {
+		var ac AgentCase
+		if err := json.Unmarshal(cf.Case, &ac); err != nil {
+			t.Fatal(err)
+		}
+		checkAgent(t, ac)
+		return
 	}
 	var c sim.Case
 	if err := json.Unmarshal(cf.Case, &c); err != nil {
